@@ -118,6 +118,28 @@ func bclGoroutines() string {
 	return strings.Join(out, "\n\n")
 }
 
+// bclGoroutinesSince: the same, without the goroutines (by id) that were already there in `before` (leftovers of an earlier,
+// already reported call must not be charged to the next one, nor make every later quiescence wait run to its deadline)
+func bclGoroutineIDs() map[string]bool {
+	ids := map[string]bool{}
+	for _, g := range strings.Split(bclGoroutines(), "\n\n") {
+		if f := strings.Fields(g); len(f) >= 2 && f[0] == "goroutine" {
+			ids[f[1]] = true
+		}
+	}
+	return ids
+}
+
+func bclGoroutinesSince(before map[string]bool) string {
+	var out []string
+	for _, g := range strings.Split(bclGoroutines(), "\n\n") {
+		if f := strings.Fields(g); len(f) >= 2 && f[0] == "goroutine" && !before[f[1]] {
+			out = append(out, g)
+		}
+	}
+	return strings.Join(out, "\n\n")
+}
+
 var jitterOn int32
 
 func installJitter(seed int64) {
@@ -156,6 +178,7 @@ func runPipe(api string, g *pipeGroup, wd time.Duration) (o pipeObs) {
 			atomic.AddInt32(&readsAfter, 1)
 		}
 	}
+	before := bclGoroutineIDs()
 	type res struct {
 		err error
 		pan string
@@ -197,7 +220,7 @@ func runPipe(api string, g *pipeGroup, wd time.Duration) (o pipeObs) {
 	// quiescence: Close is deferred in the reader goroutine and may run just after the call returned
 	deadline := time.Now().Add(1000 * time.Millisecond)
 	for time.Now().Before(deadline) {
-		if atomic.LoadInt32(&f.closes) >= 1 && bclGoroutines() == "" {
+		if atomic.LoadInt32(&f.closes) >= 1 && bclGoroutinesSince(before) == "" {
 			break
 		}
 		time.Sleep(200 * time.Microsecond)
@@ -206,7 +229,7 @@ func runPipe(api string, g *pipeGroup, wd time.Duration) (o pipeObs) {
 	o.Closes = int(atomic.LoadInt32(&f.closes))
 	o.Reads = int(atomic.LoadInt32(&f.reads))
 	o.RAfter = int(atomic.LoadInt32(&readsAfter))
-	o.Leaked = bclGoroutines()
+	o.Leaked = bclGoroutinesSince(before)
 	return o
 }
 
@@ -277,8 +300,8 @@ func replayPipe(args []string) int {
 			allowed = append(allowed, r)
 		}
 		sort.Strings(allowed)
-		if hangs > 12 {
-			s.Skipped++
+		if hangs > 12 || s.MismatchCount >= 24 {
+			s.Skipped++ // enough to report: every failing case costs a watchdog or a quiescence wait
 			continue
 		}
 		for rep := 0; rep < reps; rep++ {
